@@ -18,6 +18,7 @@ CONSTANTS Colls,      \* names of collections
           Offsets,    \* finite set of naturals: the individually tracked row offsets
           BlockSize,  \* rows per block (16384 in the code)
           Known,      \* set of deviation names that are accepted (as-built behaviour)
+          History,    \* BOOLEAN: keep, per block, the sequence of block states after every commit (for C08's cut invariant)
           Guard       \* BOOLEAN: invariants are excused by the deviations taken (FALSE only in negative controls)
 
 VARIABLES st,    \* st[c]: the state of collection c (record, see EmptyStore)
@@ -92,6 +93,7 @@ EmptyStore ==
     strm   |-> <<>>,    \* commits handed to the logger, in order
     tp     |-> "log",   \* transport of the logger: "chan" (clone of all buffers) or "log" (committed block only)
     rp     |-> 0,       \* number of commits of the source stream replayed here (replicas)
+    ap     |-> <<>>,    \* (history, only if History) ap[b+1]: block b's state after each commit applied to it
     gt     |-> EmptyFn ]\* (ghost) name -> [Offsets -> <<has, value>>]: what the committed history says each row holds,
                         \* computed row by row, independently of the buffer machinery (C01)
 
@@ -332,7 +334,7 @@ IdleTxn == [pc |-> "idle", c |-> None, setup |-> FALSE,
             fired |-> EmptyFn,           \* (observation) trigger calls made by the last Apply: trigger -> sequence
             replay |-> FALSE,            \* the buffers were handed in by Replay / Restore
             runs |-> {},                 \* runs of value-less rows inserted by this transaction (restore of filler)
-            sn |-> [nb |-> 0, blocks |-> <<>>, fail |-> FALSE],  \* snapshot in progress: blocks announced, blocks read
+            sn |-> [nb |-> 0, blocks |-> <<>>, lo |-> <<>>],  \* snapshot in progress: blocks announced, blocks read
             rs |-> [file |-> "none", pos |-> 0, trunc |-> FALSE]] \* restore in progress: file, items consumed
 
 Init == /\ st = [c \in Colls |-> EmptyStore]
@@ -440,6 +442,20 @@ Blame(S, bufs, b, id) ==
       bl == {d \in ApplyKnown : Outcome(ApplyBlock(S, bufs, b, id, FlagsOf(ApplyKnown \ {d})), b) # full}
   IN IF bl = {} THEN ApplyKnown ELSE bl
 
+ValueAt(S, n, o) == IF o \in S.has[n] THEN <<TRUE, IF S.reg[n].k = "bool" THEN TRUE ELSE S.data[n][o]>>
+                    ELSE <<FALSE, Zero(S.reg[n])>>
+
+\* the observable state of one block
+BlockProj(S, b) ==
+  [rows |-> {o \in S.live : BlockOf(o) = b},
+   runs |-> {x \in S.filler : BlockOf(x[1]) <= b /\ b <= BlockOf(x[2])},
+   vals |-> [n \in DOMAIN S.reg |-> [o \in {o \in S.live : BlockOf(o) = b} |-> ValueAt(S, n, o)]],
+   index |-> [n \in DOMAIN S.ix |-> {o \in S.ix[n].set \cap S.live : BlockOf(o) = b}]]
+Remember(S, b) ==
+  IF ~History THEN S
+  ELSE LET grown == S.ap \o [i \in 1..(b + 1 - Len(S.ap)) |-> <<>>] IN
+       [S EXCEPT !.ap = [grown EXCEPT ![b + 1] = Append(@, BlockProj(S, b))]]
+
 \* T is the transaction record the step starts from (txn[t], or the item a restore has just loaded)
 ApplyT(t, T, b, id, mode) ==
   /\ T.pc = "commit" /\ b \in T.dirty
@@ -455,7 +471,7 @@ ApplyT(t, T, b, id, mode) ==
                \* later blocks of the same buffers are read as built) follows the as-built code whenever that is
                \* indistinguishable from the strict outcome
                nb == IF same THEN full.bufs ELSE r.bufs
-               S2 == [r.S EXCEPT
+               S2 == [Remember(r.S, b) EXCEPT
                         !.wl = @ \cup {<<b, t>>},
                         !.rec = IF @.open THEN [@ EXCEPT !.log = Append(@, Recorded(id, b, nb))] ELSE @,
                         !.strm = Append(@, Emitted(S, id, b, nb))]
@@ -556,7 +572,8 @@ BlockImage(S, b, rows) ==
 SnapOpen(t, c) ==
   /\ txn[t].pc \in {"idle", "done"} /\ ~st[c].rec.open
   /\ st' = [st EXCEPT ![c].rec = [open |-> TRUE, log |-> <<>>]]
-  /\ txn' = [txn EXCEPT ![t] = [IdleTxn EXCEPT !.pc = "snap.open", !.c = c]]
+  /\ txn' = [txn EXCEPT ![t] = [IdleTxn EXCEPT !.pc = "snap.open", !.c = c,
+                                                !.sn = [@ EXCEPT !.lo = [i \in DOMAIN st[c].ap |-> Len(st[c].ap[i])]]]]
   /\ UNCHANGED <<used, files, dev>>
 
 \* a snapshot refused because another one is in progress
@@ -598,7 +615,9 @@ SnapClose(t) ==
 SnapCopy(t, name) ==
   /\ txn[t].pc = "snap.copy"
   /\ files' = [f \in DOMAIN files \cup {name} |->
-                  IF f = name THEN [nb |-> txn[t].sn.nb, blocks |-> txn[t].sn.blocks, log |-> Coll(t).rec.log] ELSE files[f]]
+                  IF f = name THEN [nb |-> txn[t].sn.nb, blocks |-> txn[t].sn.blocks, log |-> Coll(t).rec.log,
+                                    lo |-> txn[t].sn.lo, hi |-> [i \in DOMAIN Coll(t).ap |-> Len(Coll(t).ap[i])]]
+                  ELSE files[f]]
   /\ txn' = [txn EXCEPT ![t] = [IdleTxn EXCEPT !.pc = "done", !.c = txn[t].c]]
   /\ UNCHANGED <<st, used, dev>>
 
@@ -707,6 +726,21 @@ DropTrigger(c, n) ==
   /\ st' = [st EXCEPT ![c].tg = [m \in DOMAIN @ \ {n} |-> @[m]]]
   /\ UNCHANGED <<txn, used, files, dev>>
 
+\* a collection is discarded (its name may be used for a fresh one)
+Drop(c) ==
+  /\ \A t \in Actors : txn[t].c = c => txn[t].pc \in {"idle", "done"}
+  /\ st' = [st EXCEPT ![c] = EmptyStore]
+  /\ UNCHANGED <<txn, used, files, dev>>
+
+\* resources (open descriptors, recorder files in the temp directory), measured by the harness after forced GCs:
+\* whenever no snapshot is running they are what they were at the first measurement (C14)
+ResProbe(fds, tmp) ==
+  /\ \A t \in Actors : txn[t].pc \notin {"snap.open", "snap.blocks", "snap.copy"}
+  /\ IF "res" \in DOMAIN files
+       THEN fds = files["res"].fds /\ tmp = files["res"].tmp /\ UNCHANGED files
+       ELSE files' = files @@ ("res" :> [fds |-> fds, tmp |-> tmp])
+  /\ UNCHANGED <<st, txn, used, dev>>
+
 SetTransport(c, tp) ==
   /\ st' = [st EXCEPT ![c].tp = tp]
   /\ UNCHANGED <<txn, used, files, dev>>
@@ -773,9 +807,6 @@ Excused(ds) == Guard /\ dev \cap ds # {}
 
 Quiescent(c) == \A t \in Actors : txn[t].c = c => txn[t].pc \in {"idle", "done"}
 NoLatch(c) == st[c].wl = {}
-
-ValueAt(S, n, o) == IF o \in S.has[n] THEN <<TRUE, IF S.reg[n].k = "bool" THEN TRUE ELSE S.data[n][o]>>
-                    ELSE <<FALSE, Zero(S.reg[n])>>
 
 Project(S) ==
   [rows   |-> S.fill, filler |-> S.filler, count |-> CountOf(S),
